@@ -127,6 +127,10 @@ fn thresholds(cfg: &Cfg, rep: &mut Report) {
                         rep.check("res", ce == Ok(false) && en.is_err(), &format!("C14/res/{pname}/install/refused-install-left-policy-active"), || format!("after refused install: can_enforce {ce:?}, enforce {en:?}"));
                         continue;
                     }
+                    // the installation outlives any number of ledgers
+                    if rng.chance(1, 3) {
+                        w.set_ledger(w.ledger() + 600_000);
+                    }
                     // every subset of the rule's signers (+ an outsider in half of them)
                     for mask in 0u32..(1 << n) {
                         for with_outsider in [false, true] {
@@ -336,7 +340,7 @@ fn spending(cfg: &Cfg, rep: &mut Report, h: u64, steps: usize, to_bound: bool) {
                 }
             }
         } else if k < 34 && !to_bound {
-            let adv = *rng.pick(&[1u32, 1, 2, period.max(1) - 1, period.max(1), period + 1, 3]);
+            let adv = if rng.chance(1, 20) { 600_000 } else { *rng.pick(&[1u32, 1, 2, period.max(1) - 1, period.max(1), period + 1, 3]) };
             if adv > 0 {
                 w.set_ledger(cur + adv);
                 rep.op(format!("ledger -> {}", cur + adv));
